@@ -47,4 +47,8 @@ def judge : Judge := liftJudge fun input obs => do
          nontrivial := rej || waited,
          sig := if spec then "" else "limit-exceeded-or-wait-bound" }
 
+def judges : List (String × Judge) := [("C09", judge)]
+
 end Driver.C09
+
+def main (args : List String) : IO UInt32 := Driver.runMain Driver.C09.judges args
